@@ -23,17 +23,29 @@ ASSUMPTIONS = ['tokens are those of pico8/lua/lexer.py for both the input and th
                'writer mode: args without ignore_tokens (what p8tool luafmt uses)',
                'valid programs are generated without a parenthesised expression followed by a suffix and without a short-if '
                'body starting with do, except in the dedicated streams (known findings)']
-PARTIAL = ('C09_aligned (the walk over the tree of the parser model never asserts / every tree-supplied name is the token under the '
-           'cursor) is not proved; it is observed by the correspondence on generated programs. See notes/C09.md')
+PARTIAL = ('C09_aligned is proved for every token list the parser model reads to its end and whose tree lies in the domain '
+           '`writable` (Model/WriterDomain.v): plain token spelling (what the lexer produces), no parenthesised prefix followed by a '
+           'suffix (known finding paren-suffix), no `if c do ... end` (known finding short-if-do-body), none of the non-programs the '
+           'parser accepts (`()`, `{,1}`, `for =1,2 do end`, `if then`, `if f(x) y=1`). The first two exclusions are needed: '
+           'C09_aligned_paren_prefix_refuted, C09_aligned_if_do_refuted. Not proved: that the re-lexed output has the same code view '
+           '(holds_C09 / same_code are evaluated by the monitor on the real output; the theorems are at chunk / byte level, the lexer is '
+           'C07), the line-scope clause (lines_kept), and completeness of the parser on valid programs (C08). See notes/C09.md')
 CLAIM = dict(
     text=("Model/AstWriter.v mirrors LuaASTEchoWriter (every handler, _get_text/_get_name/_get_semis/_get_code_for_spaces "
           "with the token cursor and the indent counter, the end-of-input check of to_lines), parameterised by the spaces "
-          "function. Theorems (closed under the global context): C09_cursor (every run of the walk, on any tree and token "
-          "list, emits a chunk list that tiles the token list from 0 to the final cursor: trivia runs rendered by the spaces "
-          "function and one code chunk per token passed - so nothing is skipped or emitted twice by the cursor discipline), "
-          "C09_no_silent_loss (if a significant token lies at or after the end of the root node the writer raises ParserError "
-          "and writes nothing; on success the final cursor is the end of the token list), C09_echo_identity-style statements for "
-          "the echo spaces function; white-space-only per run comes from Proofs/FmtSpacesProofs (fmt_run_nonws). Tie: chunk-level "
+          "function. Theorems (closed under the global context): C09_aligned (for every token list: if the parser model returns "
+          "(root, e), nothing but white space follows e and the tree is in the domain `writable` - lexer token spelling, no "
+          "parenthesised prefix with a suffix, no `if c do`, none of the non-programs the parser lets through - then the writer walk over the Python-visible tree never raises, ends with its cursor at the end of the "
+          "token list, its Code chunks are exactly the significant tokens of the input, in order, each with the token's own code, "
+          "and the chunk list tiles the token list, so only the white-space runs are left to the spaces function), "
+          "C09_whitespace_only (for the echo writer the text is the input's bytes; for luafmt with any indent width the text has "
+          "the same bytes as the input outside white space, in order, and every code token verbatim), C09_aligned_*_refuted (the "
+          "two finding exclusions are needed: witness programs on which the model - and the real writer - raise AssertionError), "
+          "C09_no_silent_loss (if a significant token lies at or after the end of the root node the writer raises ParserError and "
+          "writes nothing). Proof route: Proofs/ParserShape.v re-runs the weakest-precondition proof of the parser with the "
+          "postcondition `span` (every leaf was the first significant token at the cursor, node ends are cursors) and `shaped` "
+          "(per node class, which hidden keyword / symbol leaves, token leaves and sub-nodes occur in which order); "
+          "Proofs/AstWriterAligned.v shows by induction on the tree that the walk re-emits exactly the leaves. Tie: chunk-level "
           "correspondence of the extracted walk with the instrumented real writers, text-level correspondence for both writers, "
           "and the extracted monitor holds_C09 on the re-lexed real output."),
     note=("Trusted: Coq kernel+VM, ExtrOcamlBasic extraction, OCaml glue, the hand-written walk model (correspondence-tested "
